@@ -102,7 +102,7 @@ func (f *sourceFile) info() targetInfo {
 }
 
 func (f *sourceFile) upToDate() (bool, string, diff.ValueDiff, error) {
-	sum, err := fileSum(f.path)
+	sum, err := fileSum(f.path, f.proj.work)
 	if err != nil && !os.IsNotExist(err) {
 		return false, "", nil, err
 	}
@@ -131,7 +131,9 @@ func (f *sourceFile) load() error {
 	return nil
 }
 
-func fileSum(path string) (string, error) {
+// fileSum returns the content sum of the file or directory at path. The directory at skip (the project's own build
+// state) is not part of any directory's sum.
+func fileSum(path, skip string) (string, error) {
 	f, err := os.Open(path)
 	if err != nil {
 		return "", err
@@ -143,13 +145,13 @@ func fileSum(path string) (string, error) {
 		return "", err
 	}
 	if stat.IsDir() {
-		return dirSum(path, f)
+		return dirSum(path, skip, f)
 	}
 
 	return util.SHA256(f)
 }
 
-func dirSum(path string, dir *os.File) (string, error) {
+func dirSum(path, skip string, dir *os.File) (string, error) {
 	entries, err := dir.ReadDir(0)
 	if err != nil {
 		return "", err
@@ -163,7 +165,13 @@ func dirSum(path string, dir *os.File) (string, error) {
 		// An entry that cannot be opened because it does not exist (a dangling symbolic link, or a file removed since
 		// the directory was listed) is covered by its name with an empty sum, like a missing source file. It must not
 		// make the directory itself look missing: that would hide every other change in the directory.
-		sum, err := fileSum(filepath.Join(path, entry.Name()))
+		entryPath := filepath.Join(path, entry.Name())
+		if entryPath == skip {
+			// The records dawn writes during every build are not sources: a source directory that contains the
+			// project's state directory would never be up to date.
+			continue
+		}
+		sum, err := fileSum(entryPath, skip)
 		if err != nil && !os.IsNotExist(err) {
 			return "", err
 		}
